@@ -71,11 +71,15 @@ BandFails(e) == Tag(e.after = e.before /\ e.fresh = e.before, "C10.band")
 \* two objects mutated one after the other: the first keeps its state, the second ends like one that was mutated alone
 Band2Fails(e) == Tag(e.aafter = e.abefore /\ e.b = e.solo, "C10.band")
 
+\* values returned by two separate decode calls share nothing: decoding or overwriting the second leaves the first as it was
+TwoFails(e) == IF e.err1 # "" \/ e.err2 # "" THEN <<"C10.alias">>
+               ELSE Tag(e.first_after_second = e.first /\ e.first_after_overwrite = e.first, "C10.alias")
 Fails(e) == CASE e.ev = "reset" -> <<>>
               [] e.ev = "own" -> OwnFails(e)
               [] e.ev = "reuse" -> ReuseFails(e)
               [] e.ev = "bandiso" -> BandFails(e)
               [] e.ev = "bandiso2" -> Band2Fails(e)
+              [] e.ev = "twodecode" -> TwoFails(e)
               [] e.ev = "subslice" -> SubsliceFails(e)
               [] e.ev = "hang" -> <<e.prop \o ".hang">>    \* a call that never returned (recorded by the watchdog of the harness)
               [] OTHER -> <<"unknown-event">>
